@@ -1,9 +1,90 @@
 import AslModel.Var
-/-! # C04 — property theorems (work in progress) -/
-namespace C04
-open AslModel.Var
+import AslProofs.Var
+/-!
+# C04 — Var holds, copies, assigns and compares JSON-like values faithfully
 
-theorem mkString_type (s : Bytes) : typeOf (mkString s) = tSTRING := by
-  unfold mkString; split <;> rfl
+Theorems about the executable model `AslModel.Var` that `lean/Driver/C04.lean` runs against the real library.
+Specifications: `Tree`/`content` (the abstract value of a Var in a heap), `WF` (reference-count invariant).
+-/
+namespace C04
+open AslModel AslModel.Var
+
+/-! ## accessors_faithful: a Var built from a number, boolean or string reports that type and value -/
+
+theorem accessors_int (i : Int) :
+    typeOf (mkInt i) = tINT ∧ isT (mkInt i) tNUMBER = true ∧ isT (mkInt i) tINT = true ∧ isT (mkInt i) tSTRING = false ∧
+    toInt (mkInt i) = some i ∧ numOf (mkInt i) = some (Dy.ofInt i) ∧ Var.toBool (mkInt i) = (i != 0) := by
+  simp [mkInt, typeOf, isT, tagOf, toInt, numOf, Var.toBool, tINT, tNUMBER, tFLOAT, tSTRING, tSSTRING]
+
+/-- `Var(unsigned)`: an INT below 2^31; from 2^31 on a NUMBER holding the same value (never a negative int) -/
+theorem accessors_unsigned (u : Nat) :
+    (u < 2147483648 → typeOf (mkUnsigned u) = tINT ∧ toInt (mkUnsigned u) = some (u : Int)) ∧
+    (2147483648 ≤ u → typeOf (mkUnsigned u) = tNUMBER ∧ numOf (mkUnsigned u) = some (Dy.ofInt u)) ∧
+    isT (mkUnsigned u) tNUMBER = true := by
+  unfold mkUnsigned
+  by_cases h : u < 2147483648
+  · simp [h, typeOf, toInt, isT, tagOf, tINT, tNUMBER, tFLOAT, tSTRING, tSSTRING]
+  · simp [h, typeOf, numOf, isT, tagOf, tINT, tNUMBER, tFLOAT, tSTRING, tSSTRING]
+
+theorem accessors_double (d : Dy) :
+    typeOf (mkDouble d) = tNUMBER ∧ isT (mkDouble d) tNUMBER = true ∧ numOf (mkDouble d) = some d ∧
+    toDouble (mkDouble d) = some (.inl d) := by
+  simp [mkDouble, typeOf, isT, tagOf, numOf, toDouble, tNUMBER]
+
+theorem accessors_float (d : Dy) :
+    typeOf (mkFloat d) = tFLOAT ∧ isT (mkFloat d) tNUMBER = true ∧ isT (mkFloat d) tFLOAT = true ∧ numOf (mkFloat d) = some d := by
+  simp [mkFloat, typeOf, isT, tagOf, numOf, tNUMBER, tFLOAT, tINT, tSTRING, tSSTRING]
+
+theorem accessors_long (x : Int) :
+    typeOf (mkLong x) = tNUMBER ∧ numOf (mkLong x) = some (Dy.ofInt x) := by
+  simp [mkLong, typeOf, numOf]
+
+theorem accessors_bool (b : Bool) :
+    typeOf (mkBool b) = tBOOL ∧ isT (mkBool b) tBOOL = true ∧ isT (mkBool b) tNUMBER = false ∧ Var.toBool (mkBool b) = b := by
+  simp [mkBool, typeOf, isT, tagOf, Var.toBool, tBOOL, tNUMBER, tINT, tFLOAT, tSTRING, tSSTRING]
+
+/-- strings on both sides of the 7/8-byte inline boundary: reported as STRING (and as SSTRING by `is`), the bytes and
+the length come back unchanged; the inline representation is used exactly below 8 bytes -/
+theorem accessors_string (s : Bytes) (h : Heap) :
+    typeOf (mkString s) = tSTRING ∧ isT (mkString s) tSTRING = true ∧ isT (mkString s) tSSTRING = true ∧
+    isT (mkString s) tNUMBER = false ∧
+    strOf (mkString s) = some s ∧ lengthV h (mkString s) = .ok s.length ∧
+    (tagOf (mkString s) = tSSTRING ↔ s.length < 8) ∧ Var.toBool (mkString s) = decide (s.length > 0) := by
+  unfold mkString
+  by_cases hl : s.length < 8 <;>
+    simp [hl, typeOf, isT, tagOf, strOf, lengthV, Var.toBool, tSTRING, tSSTRING, tNUMBER, tINT, tFLOAT]
+
+/-! ## eq_iff_content: `==` is equality of contents -/
+
+/-- `v == w` is true exactly when both denote the same tree: numbers compare by value across INT/NUMBER/FLOAT,
+strings by bytes across STRING/SSTRING, arrays and objects element-wise, NONE = NONE, NUL = NUL; nothing else is equal. -/
+theorem eq_iff_content (f : Nat) (h : Heap) (v w : V) (tv tw : Tree)
+    (hv : content f h v = some tv) (hw : content f h w = some tw) :
+    ∃ b, eqV f h v w = .ok b ∧ (b = true ↔ tv = tw) :=
+  eq_iff_content_aux f h v w tv tw hv hw
+
+theorem eq_refl (f : Nat) (h : Heap) (v : V) (tv : Tree) (hv : content f h v = some tv) :
+    eqV f h v v = .ok true := by
+  obtain ⟨b, hb, hiff⟩ := eq_iff_content f h v v tv tv hv hv
+  rw [hb, hiff.mpr rfl]
+
+theorem eq_symm (f : Nat) (h : Heap) (v w : V) (tv tw : Tree)
+    (hv : content f h v = some tv) (hw : content f h w = some tw) :
+    eqV f h v w = eqV f h w v := by
+  obtain ⟨b, hb, hiff⟩ := eq_iff_content f h v w tv tw hv hw
+  obtain ⟨b', hb', hiff'⟩ := eq_iff_content f h w v tw tv hw hv
+  rw [hb, hb']
+  have : (b = true ↔ b' = true) := by rw [hiff, hiff']; exact eq_comm
+  cases b <;> cases b' <;> simp_all
+
+theorem eq_trans (f : Nat) (h : Heap) (u v w : V) (tu tv tw : Tree)
+    (hu : content f h u = some tu) (hv : content f h v = some tv) (hw : content f h w = some tw)
+    (h1 : eqV f h u v = .ok true) (h2 : eqV f h v w = .ok true) : eqV f h u w = .ok true := by
+  obtain ⟨b, hb, hiff⟩ := eq_iff_content f h u v tu tv hu hv
+  obtain ⟨b', hb', hiff'⟩ := eq_iff_content f h v w tv tw hv hw
+  obtain ⟨b'', hb'', hiff''⟩ := eq_iff_content f h u w tu tw hu hw
+  rw [hb] at h1; rw [hb'] at h2
+  injection h1 with h1; injection h2 with h2
+  rw [hb'', hiff''.mpr ((hiff.mp h1).trans (hiff'.mp h2))]
 
 end C04
